@@ -97,7 +97,7 @@ fn families(tier: Tier) -> Vec<(&'static str, Vec<String>, usize)> {
             ],
             vec![set_opts],
         ),
-        d(3, 6),
+        d(4, 6),
     ));
 
     out.push((
@@ -137,7 +137,7 @@ fn families(tier: Tier) -> Vec<(&'static str, Vec<String>, usize)> {
                 prod("LTRIM k1 {r}", &[("r", &["0 -1", "1 -1", "0 0", "1 0", "-1 -1", "5 10", "-100 0", "0 -2", "-2 -1"])]),
             ],
         ),
-        d(4, 7),
+        d(5, 7),
     ));
 
     out.push((
@@ -150,7 +150,7 @@ fn families(tier: Tier) -> Vec<(&'static str, Vec<String>, usize)> {
             ],
             vec![],
         ),
-        d(5, 9),
+        d(6, 9),
     ));
 
     out.push((
@@ -164,7 +164,7 @@ fn families(tier: Tier) -> Vec<(&'static str, Vec<String>, usize)> {
             ],
             vec![],
         ),
-        d(4, 8),
+        d(5, 8),
     ));
 
     let zadd: Vec<String> = {
@@ -193,7 +193,7 @@ fn families(tier: Tier) -> Vec<(&'static str, Vec<String>, usize)> {
             ],
             vec![zadd],
         ),
-        d(3, 6),
+        d(4, 6),
     ));
 
     let creators = ["SET k1 a", "RPUSH k1 a", "SADD k1 a", "HSET k1 f a", "ZADD k1 1 a", "SET k1 a PX 5000", "DEL k1"];
@@ -214,7 +214,7 @@ fn families(tier: Tier) -> Vec<(&'static str, Vec<String>, usize)> {
             .map(|s| s.to_string())
             .collect()],
         ),
-        d(3, 6),
+        d(4, 6),
     ));
 
     out.push((
@@ -230,7 +230,7 @@ fn families(tier: Tier) -> Vec<(&'static str, Vec<String>, usize)> {
             ],
             vec![],
         ),
-        d(4, 7),
+        d(5, 7),
     ));
     out
 }
